@@ -1,0 +1,226 @@
+//go:build verif
+
+package quickfix
+
+import (
+	"bytes"
+	"io"
+	"sort"
+	"sync"
+	"time"
+
+	"github.com/quickfixgo/quickfix/internal"
+)
+
+// Verification façade (build tag verif only). It exposes the entry points the
+// session run loop dispatches to, so that an external harness can drive the
+// real state machine one event at a time. It contains no session logic.
+
+// Timer events, mirroring internal.Event.
+const (
+	VerifPeerTimeout   = int(internal.PeerTimeout)
+	VerifNeedHeartbeat = int(internal.NeedHeartbeat)
+	VerifLogonTimeout  = int(internal.LogonTimeout)
+	VerifLogoutTimeout = int(internal.LogoutTimeout)
+)
+
+// VerifSession wraps a session created through the regular session factory.
+type VerifSession struct {
+	s    *session
+	stop chan struct{}
+
+	// OnTimer, when set, observes every arming of the session's timers
+	// ("state" is the heartbeat timer, "peer" the test-request timer).
+	OnTimer func(which string, d time.Duration)
+}
+
+var (
+	verifSessionsMu sync.Mutex
+	verifSessions   = map[*internal.EventTimer]*VerifSession{}
+)
+
+func init() {
+	internal.VerifSetTimerObserver(func(t *internal.EventTimer, d time.Duration) bool {
+		verifSessionsMu.Lock()
+		v := verifSessions[t]
+		verifSessionsMu.Unlock()
+		if v == nil {
+			return false
+		}
+		which := "peer"
+		if t == v.s.stateTimer {
+			which = "state"
+		}
+		if f := v.OnTimer; f != nil {
+			f(which, d)
+		}
+		return true
+	})
+}
+
+// VerifNewSession builds and registers a session exactly as an Acceptor or
+// Initiator would (settings parsing included). In this deterministic mode the
+// session's timers are inert: armings are reported to OnTimer and the harness
+// injects Timeout events itself.
+func VerifNewSession(initiator bool, id SessionID, sf MessageStoreFactory, settings *SessionSettings, lf LogFactory, app Application) (*VerifSession, error) {
+	s, err := sessionFactory{BuildInitiators: initiator}.createSession(id, sf, settings, lf, app)
+	if err != nil {
+		return nil, err
+	}
+	v := &VerifSession{s: s, stop: make(chan struct{})}
+	s.stateTimer = internal.NewEventTimer(func() {})
+	s.peerTimer = internal.NewEventTimer(func() {})
+	verifSessionsMu.Lock()
+	verifSessions[s.stateTimer] = v
+	verifSessions[s.peerTimer] = v
+	verifSessionsMu.Unlock()
+	go func() {
+		// Swallow self-scheduled logon/logout timeouts; the harness injects them.
+		for {
+			select {
+			case <-s.sessionEvent:
+			case <-v.stop:
+				return
+			}
+		}
+	}()
+	return v, nil
+}
+
+// Close unregisters the session and releases its helper goroutines.
+func (v *VerifSession) Close() {
+	verifSessionsMu.Lock()
+	delete(verifSessions, v.s.stateTimer)
+	delete(verifSessions, v.s.peerTimer)
+	verifSessionsMu.Unlock()
+	v.s.stateTimer.Stop()
+	v.s.peerTimer.Stop()
+	_ = UnregisterSession(v.s.sessionID)
+	stop := v.stop
+	// Pending time.AfterFunc senders must still find a reader.
+	time.AfterFunc(15*time.Second, func() { close(stop) })
+}
+
+func (v *VerifSession) Start() { v.s.Start(v.s) }
+
+// Connect hands the session an outbound channel, like a new connection would.
+func (v *VerifSession) Connect(out chan []byte) error {
+	rep := make(chan error, 1)
+	v.s.onAdmin(connect{messageOut: out, messageIn: nil, err: rep})
+	return <-rep
+}
+
+func (v *VerifSession) Incoming(b []byte, recv time.Time) {
+	v.s.Incoming(v.s, fixIn{bytes.NewBuffer(b), recv})
+}
+func (v *VerifSession) Timeout(e int)                { v.s.Timeout(v.s, internal.Event(e)) }
+func (v *VerifSession) SendAppMessages()             { v.s.SendAppMessages(v.s) }
+func (v *VerifSession) Disconnected()                { v.s.Disconnected(v.s) }
+func (v *VerifSession) StopRequest()                 { v.s.onAdmin(stopReq{}) }
+func (v *VerifSession) CheckSessionTime(t time.Time) { v.s.CheckSessionTime(v.s, t) }
+func (v *VerifSession) CheckResetTime(t time.Time)   { v.s.CheckResetTime(v.s, t) }
+func (v *VerifSession) SetHeartBtInt(d time.Duration) { v.s.HeartBtInt = d }
+func (v *VerifSession) SetLogoutTimeout(d time.Duration) { v.s.LogoutTimeout = d }
+func (v *VerifSession) SetLogonTimeout(d time.Duration)  { v.s.LogonTimeout = d }
+
+// MessageEventPending consumes a pending "messages queued" notification.
+func (v *VerifSession) MessageEventPending() bool {
+	select {
+	case <-v.s.messageEvent:
+		return true
+	default:
+		return false
+	}
+}
+
+// InRange / SameRange expose the configured session schedule.
+func (v *VerifSession) InRange(t time.Time) bool        { return v.s.SessionTime.IsInRange(t) }
+func (v *VerifSession) SameRange(t1, t2 time.Time) bool { return v.s.SessionTime.IsInSameRange(t1, t2) }
+
+// VerifSnapshot is a read-only copy of session state for monitors.
+type VerifSnapshot struct {
+	State                           string
+	LoggedOn, Connected, InSessTime bool
+	Pending                         bool // test request outstanding
+	Resend                          bool
+	NextSender, NextTarget          int
+	Queued                          int
+	Stash                           []int
+	ResendRangeEnd, CurrentChunkEnd int
+	HeartBtInt                      time.Duration
+	Stopped                         bool
+}
+
+func (v *VerifSession) Snapshot() VerifSnapshot {
+	s := v.s
+	sn := VerifSnapshot{State: s.State.String(), LoggedOn: s.IsLoggedOn(), Connected: s.IsConnected(), InSessTime: s.IsSessionTime(),
+		NextSender: s.store.NextSenderMsgSeqNum(), NextTarget: s.store.NextTargetMsgSeqNum(), Queued: len(s.toSend),
+		HeartBtInt: s.HeartBtInt, Stopped: s.Stopped()}
+	st := s.State
+	if p, ok := st.(pendingTimeout); ok {
+		sn.Pending = true
+		st = p.sessionState
+	}
+	if r, ok := st.(resendState); ok {
+		sn.Resend = true
+		sn.ResendRangeEnd, sn.CurrentChunkEnd = r.resendRangeEnd, r.currentResendRangeEnd
+		for k := range r.messageStash {
+			sn.Stash = append(sn.Stash, k)
+		}
+		sort.Ints(sn.Stash)
+	}
+	return sn
+}
+
+// Run executes the real run loop (real timers) until the session is stopped.
+func (v *VerifSession) Run() {
+	verifSessionsMu.Lock()
+	delete(verifSessions, v.s.stateTimer)
+	delete(verifSessions, v.s.peerTimer)
+	verifSessionsMu.Unlock()
+	v.s.stateTimer.Stop()
+	v.s.peerTimer.Stop()
+	close(v.stop)
+	v.stop = make(chan struct{})
+	v.s.run()
+}
+
+// Stop asks the real run loop to stop (clean logout first when logged on).
+func (v *VerifSession) Stop() { v.s.stop() }
+
+// ConnectStream attaches a byte stream to a session running its real loop,
+// the way Acceptor.handleConnection does after identifying the session.
+func (v *VerifSession) ConnectStream(r io.Reader, w io.Writer) error {
+	msgIn := make(chan fixIn, v.s.InChanCapacity)
+	msgOut := make(chan []byte)
+	if err := v.s.connect(msgIn, msgOut); err != nil {
+		return err
+	}
+	go readLoop(newParser(r), msgIn, v.s.log)
+	go writeLoop(w, msgOut, v.s.log)
+	return nil
+}
+
+// VerifLookup wraps a session created by an Acceptor or Initiator.
+func VerifLookup(id SessionID) *VerifSession {
+	s, ok := lookupSession(id)
+	if !ok {
+		return nil
+	}
+	return &VerifSession{s: s, stop: make(chan struct{})}
+}
+
+// VerifParser exposes the stream framer.
+type VerifParser struct{ p *parser }
+
+func VerifNewParser(r io.Reader) *VerifParser { return &VerifParser{newParser(r)} }
+func (vp *VerifParser) ReadMessage() ([]byte, error) {
+	b, err := vp.p.ReadMessage()
+	if err != nil {
+		return nil, err
+	}
+	return b.Bytes(), nil
+}
+
+// BufCap reports the framer's current buffer capacity (evidence only).
+func (vp *VerifParser) BufCap() int { return cap(vp.p.bigBuffer) }
